@@ -313,7 +313,13 @@ def _sweep_work(task):
         # every syntactic position (also makes the unit several thousand tokens long)
         f.write("".join(f"#include <{h}>\n" for h in hdrs) + "".join(
             f"{n} v_{i};\n{n} *p_{i}, a_{i}[2];\n{n} *f_{i}({n} x, {n} *);\n"
-            f"unsigned long s_{i} = sizeof({n}) + sizeof(({n} *)0);\n" for i, n in declared))
+            f"unsigned long s_{i} = sizeof({n}) + sizeof(({n} *)0) + _Alignof({n}) + alignof({n});\n"
+            # ... and as the operand of the alignment specifier, spelled directly and through
+            # the alignas macro of the fake headers, at file scope, in a struct and in a block
+            f"_Alignas({n}) char al_{i}[64];\nalignas({n}) char am_{i};\n"
+            f"struct su_{i} {{ _Alignas({n}) char c; {n} m; }};\n"
+            f"void fb_{i}(void) {{ _Alignas({n}) char local; {n} w; (void)sizeof(_Alignof({n})); }}\n"
+            for i, n in declared))
     prob, info = run_cell(sweep_file, std, form, sc)
     if prob:
         fails.append((prob[0], case, prob[1]))
@@ -325,6 +331,13 @@ def _sweep_work(task):
                   and isinstance(d.type.type, c_ast.IdentifierType) and d.type.type.names == [n])
             if not ok:
                 fails.append((f"typedef-not-usable:{n}", case, f"-std={std} {form} form: `{n} v_{i};` did not become a Decl of type {n}"))
+            a = decls.get(f"al_{i}")
+            al = getattr(a, "align", None) or []
+            t = getattr(al[0], "alignment", None) if al else None
+            if not (isinstance(t, c_ast.Typename) and isinstance(getattr(t.type, "type", None), c_ast.IdentifierType)
+                    and t.type.type.names == [n]):
+                fails.append(("typedef-not-usable-as-alignment-operand" if len(declared) > 3 else f"typedef-not-usable-as-alignment-operand:{n}",
+                              case, f"-std={std} {form} form: `_Alignas({n}) char al_{i}[64];` did not record the type name {n} as alignment"))
     return fails, len(declared), sorted(T), exc
 
 
